@@ -3,7 +3,7 @@
 //! set) `reformat_lua_code` on generated valid Lua, the std library annotation files and erroneous
 //! inputs × configurations.
 use crate::gen_lua::Gen;
-use crate::range::{classify, configs, corpus, erroneous};
+use crate::range::{configs, corpus, erroneous};
 use crate::tokens;
 use emmylua_formatter::ir::{self, AlignEntry, DocIR};
 use emmylua_formatter::{LuaFormatConfig, SourceText, reformat_lua_code, verif};
@@ -393,7 +393,7 @@ pub fn classify5(text: &str, cfg: &LuaFormatConfig) -> Option<&'static str> {
     if !tree.has_syntax_errors() && tree.get_errors().iter().any(|e| e.kind == LuaParseErrorKind::DocError) {
         return Some("input-has-doc-annotation-syntax-error");
     }
-    classify(text)
+    None
 }
 
 /// how two texts differ: only in whitespace runs that contain a line break in at least one of them
@@ -446,6 +446,9 @@ pub fn classify6(text: &str, cfg: &LuaFormatConfig) -> Option<&'static str> {
     if first == second {
         return None;
     }
+    if tree.get_errors().iter().any(|e| e.kind == emmylua_parser::LuaParseErrorKind::DocError) {
+        return Some("input-has-doc-annotation-syntax-error");
+    }
     // narrow findings: one or two options interacting with one construct
     if cfg.comments.line_comment_min_column > 0
         && text.lines().any(|l| {
@@ -454,6 +457,17 @@ pub fn classify6(text: &str, cfg: &LuaFormatConfig) -> Option<&'static str> {
         })
     {
         return Some("comment-min-column+statement-with-trailing-comment");
+    }
+    if cfg.align.continuous_assign_statement {
+        // two consecutive statements of a block that are both assignments / local declarations
+        let is_assign = |n: &emmylua_parser::LuaSyntaxNode| matches!(n.kind(), LuaKind::Syntax(LuaSyntaxKind::LocalStat | LuaSyntaxKind::AssignStat));
+        let consecutive = tree.get_red_root().descendants().filter(|n| n.kind() == LuaKind::Syntax(LuaSyntaxKind::Block)).any(|b| {
+            let stats: Vec<_> = b.children().filter(|c| c.kind() != LuaKind::Syntax(LuaSyntaxKind::Comment)).collect();
+            stats.windows(2).any(|w| is_assign(&w[0]) && is_assign(&w[1]))
+        });
+        if consecutive {
+            return Some("continuous-assign-alignment+consecutive-assignments");
+        }
     }
     if cfg.output.single_arg_call_parens == emmylua_formatter::SingleArgCallParens::Always && cfg.spacing.space_before_call_paren {
         let parenless = tree.get_red_root().descendants().any(|n| {
@@ -644,6 +658,7 @@ pub fn run(args: &Args, report: &mut Report) {
         "while x do\n  break -- b\nend\ngoto done -- g\n::done:: -- l\nreturn 1 -- r\n",
         "---@class (exact) A some desc\n---@class Bcd other\nlocal t = {}\n",
         "local s = 'C:\\\\dir\\\\\"'\nlocal t = \"it's\"\nlocal u = 'say \"x\"'\n", "x = 1 -- last",
+        "---@alias A<T> T -?\n---@alias (partial) Bcd<K, V> table<K, V>\nlocal x\n---@alias Opt\n---|> \"collect\" # full\n---| \"stop\" # stops\n---@alias Other string\nlocal y\n",
         "local a = 1 -- one\nlocal bcd = 22 -- two\nfoo(a, function() x() y() end, function() z() w() end)\n",
     ].iter().enumerate() {
         inputs.push((format!("corpus-defects-{i}"), t.to_string(), None));
@@ -680,7 +695,12 @@ pub fn run(args: &Args, report: &mut Report) {
 
     // which configurations an input is formatted with: default, some hand-picked, a rotating window over the
     // single-option toggles (so every toggle meets many inputs), random combinations
+    let n_corpus = inputs.iter().take_while(|x| x.0.starts_with("corpus")).count();
     let per_input = |i: usize| -> Vec<usize> {
+        if i < n_corpus {
+            // the hand-written corpus (incl. the canonical inputs of all fixed defects) meets every configuration
+            return (0..cfgs.len()).collect();
+        }
         let n_single = n_singles_end - n_named;
         let n_random = cfgs.len() - n_singles_end;
         let mut v = vec![0usize];
